@@ -135,7 +135,8 @@ class Recorder:
     def proj_records(self, entries: List[wire.Entry]) -> List[List[int]]:
         out = []
         for e in entries:
-            ttl = e.ttl if e.ttl is not None and e.ttl < 2 ** 31 else -1
+            # TLC integers are 32-bit: TTLs are clamped to 2,000,000 s (23 days), which never expires within a trace
+            ttl = min(e.ttl if e.ttl is not None else 0, 2000000)
             out.append([self.it.rid_of_entry(e), ttl, 1 if e.flush else 0])
         return out
 
@@ -152,8 +153,17 @@ class Recorder:
     def _on_recv(self, e: dict, data: bytes) -> None:
         did = self.did.setdefault(data, len(self.did) + 1)
         p = self.proj_msg(data)
+        libvalid = True
+        if p is None and len(data) <= 8966:
+            # what the library's own decoder makes of a datagram the strict parser rejects (separate instance, no side effects)
+            try:
+                from zeroconf._protocol.incoming import DNSIncoming
+                libvalid = bool(DNSIncoming(data).valid)
+            except BaseException:  # noqa: BLE001
+                libvalid = False
         if p is None:
-            self.ev('recv', did=did, bad=True, sock=e['sock'], src=self.it.nb(e['src']), port=e['port'], inj=bool(e.get('inj')))
+            self.ev('recv', did=did, bad=True, libvalid=libvalid, sock=e['sock'], src=self.it.nb(e['src']), port=e['port'], inj=bool(e.get('inj')),
+                    len=len(data))
             return
         self.ev('recv', did=did, bad=False, sock=e['sock'], src=self.it.nb(e['src']), port=e['port'], inj=bool(e.get('inj')),
                 tag=e.get('tag'), **p)
@@ -349,6 +359,8 @@ class Recorder:
                 self.bg.append(asyncio.ensure_future(self.lookup(st)))
             elif op == 'bstart':
                 self.start_browser(st)
+            elif op == 'expect_added':
+                self.ev('expect_added', name=self.it.nb(st['name']))
             elif op == 'ladd':
                 self.add_listener()
             elif op == 'conflict':
@@ -476,6 +488,8 @@ def gen_question(rng: random.Random, svcs: List[dict]) -> dict:
         q = {'name': rng.choice([sp['type'], sp['name'], sp['host']]), 'type': rng.choice([99, wire.T_NSEC, wire.T_HINFO, wire.T_CNAME])}
     else:
         q = {'name': sp['name'], 'type': wire.T_PTR}      # a type question on an instance name: nothing
+    if rng.random() < 0.02:
+        q = {'name': '.', 'type': rng.choice([wire.T_PTR, 2, wire.T_ANY])}       # the root name
     q['sp'] = rng.randint(0, 2)
     return q
 
